@@ -12,6 +12,7 @@ import (
 	"hash/fnv"
 	"os"
 	"path/filepath"
+	"reflect"
 	"sort"
 	"strconv"
 	"strings"
@@ -443,7 +444,24 @@ func showInto(sb *strings.Builder, v interface{}, depth int) {
 	case ref.ExpRef:
 		sb.WriteString("&expref")
 	default:
-		fmt.Fprintf(sb, "%#v", v)
+		// an unexpected Go type: print its type and a bounded rendering
+		func() {
+			defer func() {
+				if recover() != nil {
+					fmt.Fprintf(sb, "<%T>", v)
+				}
+			}()
+			s := fmt.Sprintf("%T", v)
+			switch reflect.ValueOf(v).Kind() {
+			case reflect.Slice, reflect.Map, reflect.Ptr, reflect.Struct, reflect.Interface:
+				if b, err := json.Marshal(v); err == nil && len(b) < 600 {
+					s += " " + string(b)
+				}
+			default:
+				s += fmt.Sprintf(" %v", v)
+			}
+			sb.WriteString(s)
+		}()
 	}
 }
 
@@ -457,8 +475,14 @@ func showOut(o libOut) string {
 	return show(o.Val)
 }
 
-// isJSONData: the C16 validity predicate (type walk).
-func isJSONData(v interface{}) bool {
+// isJSONData: the C16 validity predicate (type walk). Depth limited: a broken library
+// may return a cyclic structure, which is certainly not JSON data.
+func isJSONData(v interface{}) bool { return isJSONDataDepth(v, 0) }
+
+func isJSONDataDepth(v interface{}, depth int) bool {
+	if depth > 20000 {
+		return false
+	}
 	switch t := v.(type) {
 	case nil, bool, string:
 		return true
@@ -469,7 +493,7 @@ func isJSONData(v interface{}) bool {
 			return false
 		}
 		for _, e := range t {
-			if !isJSONData(e) {
+			if !isJSONDataDepth(e, depth+1) {
 				return false
 			}
 		}
@@ -479,7 +503,7 @@ func isJSONData(v interface{}) bool {
 			return false
 		}
 		for _, e := range t {
-			if !isJSONData(e) {
+			if !isJSONDataDepth(e, depth+1) {
 				return false
 			}
 		}
